@@ -295,7 +295,14 @@ def parse_into_datetime(
             # Doesn't have timezone info in the string; assume UTC
             ts = pytz.utc.localize(parsed)
 
-    # Ensure correct precision
+    # Ensure correct precision.  The fields are truncated in the value's own
+    # zone, which is the truncation of the UTC instant for every whole-second
+    # UTC offset; a value whose offset has a sub-second part is moved to UTC
+    # first.
+    offset = ts.utcoffset()
+    if offset is not None and offset.microseconds:
+        ts = ts.astimezone(pytz.utc)
+
     if precision == Precision.SECOND:
         if precision_constraint == PrecisionConstraint.EXACT:
             ts = ts.replace(microsecond=0)
